@@ -38,6 +38,7 @@ def compose_event(darsia, rng, tid, stages):
 
     saved = (cb.WhiteBalance, cb.ColorBalance, cb.AffineBalance)
     x = np.array([[rng.randint(-3, 5) for _ in range(3)] for _ in range(5)], dtype=float)
+    x[rng.randrange(5)] = 0.0          # an exactly black swatch among them
     e = {"tid": tid, "op": "compose", "stages": stages, "x": ints(x), "raised": 0, "res": []}
     try:
         cb.WhiteBalance = cb.ColorBalance = cb.AffineBalance = Stub
@@ -61,8 +62,21 @@ def compose_event(darsia, rng, tid, stages):
     return e
 
 
+SWP = [-1]
+
+
 def swatches(rs, flat):
     base = rs.rand(24, 3) * 0.8 + 0.1
+    # (a colour checker has them: an exactly black and an exactly white swatch, two grey swatches with equal channels, two
+    # identical swatches, a pure colour with vanishing channels)
+    SWP[0] += 1
+    if SWP[0] % 2 == 1:
+        base[0] = 0.0
+        base[1] = 1.0
+        base[2] = 0.5
+        base[3] = 0.25
+        base[5] = base[4]
+        base[6] = [0.9, 0.0, 0.0]
     return base if flat else base.reshape(4, 6, 3)
 
 
